@@ -6,6 +6,10 @@ ALL = ["C%02d" % i for i in range(1, 20)]
 
 # id -> (technique, level text, level note, design ref)
 CLAIMED = {
+ "C09": ("rapid property-based testing: print/parse round trip on generated rule structs, alternative spellings, formatted blocks and profile files",
+         "Generated search over four domains: (A) rule structs of every kind with composed AARE values and comments, (B) the same rules in alternative valid spellings, parsed first, (C) blocks after Merge+Sort+Format, (D) profile files (preamble + header). Oracle is the round trip itself: parse(print(r)) == r field by field and print(parse(print(r))) == print(r) byte for byte. Tens of thousands of cases per quick run, millions thorough.",
+         "Trusts the reflection bridge and the stated generator domain: Unix attr/opt (never printed, rejected by AppArmor), 'allow' == no qualifier, annotation flags compared through the rendered comment text, comments not ending in '}', a network rule with type packet and no family (cannot be written down).",
+         "DESIGN.md §2 C09"),
  "C10": ("rapid property-based testing: generated near-duplicate rule lists vs. an independent fact-set denotation (reference-compiler differential for ABI-3 kinds)",
          "Generated search: 40k lists per quick run (1.6M thorough) of 2-12 rules in which two thirds are near-duplicates of an earlier rule; an independent denotation (rule -> set of qualifier/subject/permission facts, written from apparmor.d(5)) must be unchanged by Merge, and Merge must be idempotent. Fixed witnesses keep every repaired finding under regression.",
          "Trusts the denotation in c10_test.go (which lists are disjunctive, that an absent list means 'all') and the reflection bridge; conflicting exec transitions on one path are not generated (invalid policy).",
